@@ -213,8 +213,32 @@ func Execute(r *Run, sc Scenario) (skipped string) {
 		// difference to the clock-less reference model.
 		bases := []int64{0, 1_000_000_000, 1_790_000_000, 1<<31 + 100, 4_102_444_800, 253_402_300_799}
 		steps := []int64{0, 1, 3600, 400 * 86400, 80 * 365 * 86400}
-		ci := r.T.Choose(len(bases)*len(steps), "clock")
+		// ... and so is its process environment: per run every variable is
+		// unset, or every variable the library asks for has a value that
+		// depends on its name and the run ("1", "0", "true", "off", empty)
+		envModes := 4
+		ci := r.T.Choose(len(bases)*len(steps)*envModes, "clock+env")
+		envMode := ci / (len(bases) * len(steps))
+		ci %= len(bases) * len(steps)
 		base, step := bases[ci%len(bases)], steps[ci/len(bases)]
+		envReads0 := EnvReads()
+		SetEnvHook(func(name string) (string, bool) {
+			if envMode == 0 {
+				return "", false
+			}
+			h := uint64(envMode) * 0x9e3779b97f4a7c15
+			for i := 0; i < len(name); i++ {
+				h = (h ^ uint64(name[i])) * 1099511628211
+			}
+			vals := []string{"1", "0", "true", "off", "", "2"}
+			if envMode == 1 {
+				return "1", true
+			}
+			if h>>40&3 == 0 {
+				return "", false
+			}
+			return vals[(h>>20)%uint64(len(vals))], true
+		})
 		reads0 := ClockReads()
 		var nreads atomic.Int64
 		SetNowHook(func() time.Time {
@@ -224,6 +248,10 @@ func Execute(r *Run, sc Scenario) (skipped string) {
 		defer func() {
 			SetPermHook(nil)
 			SetNowHook(nil)
+			SetEnvHook(nil)
+			if n := EnvReads() - envReads0; n > 0 {
+				r.Faults["env.read-by-library"] += int(n)
+			}
 			if r.mapPerms > 0 {
 				r.Faults["maporder"] += r.mapPerms
 			}
